@@ -70,6 +70,21 @@ Definition is_cancel_to (peer : string) (e : effect) : bool :=
 Definition cancel_effect (e : effect) : bool :=
   match e with EPersist _ _ _ | ESend _ (MCancel _) => true | _ => false end.
 
+(* ---------- what "the swap was cancelled" means for one entry point ---------- *)
+(* the record that is durable after a list of effects *)
+Definition lp_acc (acc : option (string * swap_data)) (e : effect) : option (string * swap_data) :=
+  match e with EPersist s d true => Some (s, d) | _ => acc end.
+Definition lastp (acc : option (string * swap_data)) (es : list effect) := fold_left lp_acc es acc.
+
+(* the entry point returned "done" without error (the service then removes the swap from the
+   active set), the machine is in a finished state, a cancel message went to the swap's peer,
+   the last durable record is that finished machine, and nothing else was done *)
+Definition cancelled (terminal : list string) (m m' : machine) (res : result) (es : list effect) : Prop :=
+  res = mkResult true ErrNone /\ is_finished terminal (m_cur m') = true /\
+  existsb (is_cancel_to (d_peer (m_data m))) es = true /\
+  (forall acc, lastp acc es = Some (m_cur m', m_data m')) /\
+  forallb cancel_effect es = true.
+
 (* ---------- monitor ---------- *)
 Definition c17_case := (fsm_case * list (list Z))%type.
 
